@@ -18,7 +18,8 @@ Local Open Scope Z_scope.
 (** Guarded statement (what holds of the code at HEAD).  For EVERY write history [hist] (any number of
     WriteCSM requests, any rows in any order, many per interval, any intervals and years 1970..9999) to a
     variable-length bucket of timeframe [tf] with [plen] payload bytes per record, and every table
-    [clen] of stored block lengths, inside [guard_C09] (no F1/F2/F3/F4 input, queryable timeframe):
+    [clen] of stored block lengths, inside [guard_C09] (no F2/F3 input, queryable timeframe, codec within
+    C10's bound; the former classes F4 and F1 are fixed in /repo and no longer guarded):
     the query over all time succeeds and returns the rows R = the records of the final file state in
     (year, slot, tick) order, where
       - R is a PERMUTATION of the written records, each quantised by the tick codec (every record exactly
@@ -70,14 +71,15 @@ Print Assumptions C09_store.
 (** the query over all time on any well-formed variable file state dated 1970+ returns all its rows *)
 Theorem C09_read_all : forall b,
   wf_bucket b = true -> b_var b = true -> Forall (fun f => 1970 <= y_year f) (b_files b) ->
-  (exists c, var_candidates b all_start all_end = Ok c /\ Z.of_nat (length c) <= maxInt32) ->
+  (exists c, var_candidates b all_start (clamp_end all_end) = Ok c /\ Z.of_nat (length c) <= maxInt32) ->
   exec_query b all_start all_end = Ok (enc_rows (var_rows_all b)) /\ sorted_tns (var_rows_all b) = true.
 Proof. exact query_all_rows. Qed.
 Print Assumptions C09_read_all.
 
 (* ------------------------------------------------------------------------------------------ *)
 (** Full statement (the property as given): the same for every history of well-formed rows in every
-    on-disk timeframe, without the guard.  Refuted by five replayed witnesses, one per class. *)
+    on-disk timeframe, without the guard.  Refuted by three replayed witnesses, one per open class
+    (F4 and F1 are fixed: their witnesses are regression examples below). *)
 Definition C09_full : Prop := forall tf plen clen hist,
   is_tf tf = true -> forallb (row_ok plen) (all_rows hist) = true ->
   let R := var_rows_all (final_bucket enc dec tf plen clen hist) in
@@ -88,17 +90,16 @@ Definition C09_full : Prop := forall tf plen clen hist,
 
 Definition i32le (v : Z) : list byte := le_bytes 4 v.
 
-(** F4, class second-stage-buffer-too-small: 12 records with a 64-byte all-zero payload at the same
-    instant of a 1Min interval compress to 49 bytes (recorded from the real encoder); the reader sizes its
-    buffer 4 x 49, doubles it once, and 12 x 76 = 912 bytes do not fit: panic.
-    (corpus/C09/f4_buffer_too_small.json) *)
+(** former F4 witness (class second-stage-buffer-too-small, fixed in /repo 247ada4): 12 records with a
+    64-byte all-zero payload at the same instant compress to 49 bytes; the reader's buffer now grows until
+    the 912 expanded bytes fit and the query returns all 12.  (corpus/C09/f4_buffer_too_small.json) *)
 Definition w_F4 : list (list wrow) := [ repeat (mkW 1583056830 0 (repeat x00 64)) 12 ].
-Theorem C09_refuted_F4 : ~ C09_full.
-Proof.
-  intros H. destruct (H 60000000000 64 (fun _ => 49) w_F4 eq_refl eq_refl) as (Q & _).
-  vm_compute in Q. discriminate Q.
-Qed.
-Print Assumptions C09_refuted_F4.
+Example C09_former_F4 :
+  match query_all enc dec 60000000000 64 (fun _ => 49) w_F4 with
+  | Ok out => length out = (12 * 76)%nat
+  | _ => False
+  end.
+Proof. vm_compute. reflexivity. Qed.
 
 (** F2, class daily-jan1-index0: a 1D record dated January 1st has index YearDay()-1 = 0, is written
     into the header area and never read.  (corpus/C09/f2_daily_jan1.json) *)
@@ -110,16 +111,11 @@ Proof.
 Qed.
 Print Assumptions C09_refuted_F2.
 
-(** F1, class decoded-second-rounded-up: 10:00:50.000000006 in a 1Min bucket is returned as
-    10:00:50.999999995 — GetTimeFromTicks rounds the seconds up but keeps the nanoseconds.
-    (corpus/C09/f1_second_rounded_up.json) *)
+(** former F1 witness (class decoded-second-rounded-up, fixed in /repo 551fdb4): 10:00:50.000000006 in a
+    1Min bucket now decodes within the bound.  (corpus/C09/f1_second_rounded_up.json) *)
 Definition w_F1 : list (list wrow) := [ [mkW 1583056850 6 (i32le 5)] ].
-Theorem C09_refuted_F1 : ~ C09_full.
-Proof.
-  intros H. destruct (H 60000000000 4 (fun _ => 1000) w_F1 eq_refl eq_refl) as (_ & _ & _ & B).
-  inversion B as [|? ? B1 _]; subst. vm_compute in B1. discriminate B1.
-Qed.
-Print Assumptions C09_refuted_F1.
+Example C09_former_F1 : guard_C09 enc dec 60000000000 4 (fun _ => 20) w_F1 = true.
+Proof. vm_compute. reflexivity. Qed.
 
 (** F3, class cross-year-merge: WriteRecords never updates prevYear; in the request
     [2017-02-03 04:05:06; 2018-02-03 04:06:10; 2017-02-03 04:06:20] the third row is merged into the
